@@ -1,6 +1,6 @@
 # per-property table extraction; executed inside translate.py (uses src, const, defN, lines, errors, strip_comments, rust_int)
 
-# ---------------------------------------------------------------- C04/C05/C09: rangeproof parameters of TxOut (src/blind.rs)
+# ---------------------------------------------------------------- C04/C05/C09: rangeproof parameters of TxOut, surjection-proof domain limit of Asset::blind (src/blind.rs)
 def _c04():
     rel = "blind.rs"
     lines.append("(* C04: src/blind.rs, impl TxOut *)")
@@ -16,6 +16,20 @@ def _c04():
     # the model's blinding of a value passes exactly these three constants to RangeProof::new
     if not re.search(r"RangeProof::new\(\s*secp,\s*TxOut::RANGEPROOF_MIN_VALUE,", s):
         errors.append("anchor missing: RangeProof::new(secp, TxOut::RANGEPROOF_MIN_VALUE, ..) in Value::blind_with_shared_secret (src/blind.rs)")
+    # Asset::blind: the size limit of the surjection proof's domain (a free const of src/blind.rs) and the guard that applies it,
+    # after the surjection targets are collected and before SurjectionProof::new
+    v = const(rel, "SURJECTIONPROOF_MAX_N_INPUTS")
+    if v is not None:
+        try:
+            defN("CT_SURJECTIONPROOF_MAX_N_INPUTS", rust_int(v), "SURJECTIONPROOF_MAX_N_INPUTS (src/blind.rs)")
+        except ValueError:
+            errors.append("const SURJECTIONPROOF_MAX_N_INPUTS in src/%s is not an integer literal: %s" % (rel, v))
+    if not re.search(r"\.collect::<Result<Vec<_>,\s*_>>\(\)\?;\s*"
+                     r"if\s+inputs\.len\(\)\s*>\s*SURJECTIONPROOF_MAX_N_INPUTS\s*\{\s*"
+                     r"return\s+Err\(\s*ConfidentialTxOutError::Upstream\(\s*secp256k1_zkp::Error::CannotProveSurjection\s*\)\s*\)\s*;\s*\}\s*"
+                     r"let\s+surjection_proof\s*=\s*SurjectionProof::new\(", s):
+        errors.append("anchor missing: `if inputs.len() > SURJECTIONPROOF_MAX_N_INPUTS { return Err(..Upstream(..CannotProveSurjection)); }` "
+                      "between the collection of the surjection targets and SurjectionProof::new in Asset::blind (src/blind.rs)")
     lines.append("")
 
 
